@@ -33,7 +33,7 @@ ENGINES = {
     # one injected panic at every callback invocation (trace k-th, finalize, drop)
     'fault': _eng('fault', dict(MaxOps=5, MaxFaults=1, MaxTraceK=3, N=3), dict(MaxOps=7), {'quick': ['all-dev'], 'thorough': ['all-dev', 'all-rel']}),
     # weak pointers: downgrade / upgrade / Weak clone / Weak drop / weak fields, upgrades from finalizers and destructors
-    'weak': _eng('weak', dict(N=2, NS=1, NW=1, MaxOps=6, MaxWRoots=2, OPS={"new", "clone", "drop", "set", "clear", "collect", "unwrap", "downgrade", "upgrade", "upgradef", "clonew", "dropw", "setw", "clearw", "put"}),
+    'weak': _eng('weak', dict(N=2, NS=1, NW=1, MaxOps=6, MaxWRoots=2, OPS={"new", "clone", "drop", "set", "clear", "collect", "unwrap", "downgrade", "upgrade", "upgradef", "clonew", "dropw", "setw", "clearw", "put", "wnew"}),
                  dict(MaxOps=8), {'quick': ['all-dev'], 'thorough': ['all-dev', 'all-rel', 'nofin-rel']}),
     'weaknofin': _eng('weaknofin', dict(N=2, NS=1, NW=1, FIN=False, MaxOps=6, MaxWRoots=2, MaxFaults=1, MaxTraceK=2, OPS={"new", "clone", "drop", "set", "collect", "unwrap", "downgrade", "upgrade", "upgradef", "dropw", "setw"}),
                  dict(MaxOps=7), {'quick': ['nofin-rel'], 'thorough': ['nofin-dev', 'nofin-rel']}),
